@@ -59,6 +59,13 @@ type Thread struct {
 	spinCnt int
 	resumeTo     *Thread
 	pullConsumer *Thread
+	loads        []spinRec // atomic loads since this thread's last write-like visible operation
+}
+
+type spinRec struct {
+	c   *Cell
+	ver int
+	at  string // call-stack fingerprint: a genuine spin repeats the same program point
 }
 
 type schedState struct {
@@ -242,6 +249,9 @@ func (in *Interp) pickNext(except *Thread, why string) *Thread {
 // visible is called before every visible operation of the current thread; in a parallel section the
 // scheduler may pre-empt here (costing one unit of the pre-emption budget).
 func (in *Interp) visible(kind string) {
+	if in.cur != nil && kind != "atomic.load" {
+		in.cur.loads = in.cur.loads[:0]
+	}
 	if !in.par || in.cur == nil || in.cur.pull {
 		return
 	}
@@ -534,4 +544,62 @@ func (in *Interp) mutexUnlock(p *Ptr) {
 func stack() string {
 	buf := make([]byte, 8192)
 	return string(buf[:runtimeStack(buf)])
+}
+
+// noteAtomicLoad implements the fairness rule for busy-waiting: a thread whose recent atomic loads repeat
+// with a period of at most 4 (three times over) while none of the cells changed is spinning; it is treated
+// as blocked until one of those cells is written by somebody else.
+func (in *Interp) noteAtomicLoad(c *Cell) {
+	t := in.cur
+	if t == nil {
+		return
+	}
+	at := ""
+	n0 := 0
+	for fr := t.top; fr != nil && n0 < 5; fr = fr.caller {
+		at += fmt.Sprintf("%p:%d;", fr.fn, fr.curPos)
+		n0++
+	}
+	t.loads = append(t.loads, spinRec{c, c.ver, at})
+	if len(t.loads) > 64 {
+		t.loads = t.loads[len(t.loads)-32:]
+	}
+	n := len(t.loads)
+	for p := 1; p <= 4; p++ {
+		if n < 3*p {
+			continue
+		}
+		ok := true
+		for i := 0; i < 2*p && ok; i++ {
+			a, b := t.loads[n-1-i], t.loads[n-1-i-p]
+			if a.c != b.c || a.ver != b.ver || a.at != b.at {
+				ok = false
+			}
+		}
+		if !ok {
+			continue
+		}
+		recs := append([]spinRec(nil), t.loads[n-p:]...)
+		changed := func() bool {
+			for _, r := range recs {
+				if r.c.ver != r.ver {
+					return true
+				}
+			}
+			return false
+		}
+		if changed() {
+			return
+		}
+		t.loads = t.loads[:0]
+		in.blockOn(nil, changed, "spin-wait on unchanged atomic cell(s)")
+		return
+	}
+}
+
+func (in *Interp) noteAtomicWrite(c *Cell) {
+	c.ver++
+	if in.cur != nil {
+		in.cur.loads = in.cur.loads[:0]
+	}
 }
